@@ -135,6 +135,8 @@ type X struct {
 	noWrap   bool
 	noRetry  map[string]bool
 	rootRets []retPoint
+	atHits   map[*Clause]int
+	also     []string
 	stale    []string // contract clauses that could not be evaluated against the current code
 }
 
